@@ -86,6 +86,17 @@ int main(int argc, char** argv) {
         default: split = radii[0]; break;
         }
         std::printf("# case %d nr=%d ntheta=%d splitmode=%d\n", c, nr, nth, mode);
+        if (c % 6 == 5) {
+            // grids built by the parametric constructor (the one GMGPolar::setup uses), with divideBy2 bisections, and reloaded from files
+            int nr_exp = rng.range(2, 3), nt_exp = rng.range(0, 3) == 0 ? -1 : rng.range(2, 4), dv = rng.range(0, 2), an = rng.range(0, 1);
+            try {
+                PolarGrid pg(1e-2, 1.3, nr_exp, nt_exp, 0.66 * 1.3, an, dv);
+                std::printf("# parametric nr_exp=%d ntheta_exp=%d aniso=%d divideBy2=%d\n", nr_exp, nt_exp, an, dv);
+                dump_grid(pg, c % 12 == 5);
+                PolarGrid cp(pg); PolarGrid mv(std::move(cp));
+                dump_grid(mv, false);
+            } catch (const std::exception& e) { std::printf("# parametric grid rejected: %s\n", e.what()); }
+        }
         try {
             PolarGrid g(radii, angles, split);
             dump_grid(g, c % 4 == 0);
